@@ -190,7 +190,8 @@ func (m *Monitor) c05(op Op, ok bool, prev, cur Snap) {
 			}
 		case op.Kind == "BatchExecuted" && ok && ppl[id][0] == fmt.Sprintf("batch:%d", op.Nonce) && p.Token == op.Token:
 			for i, k := range m.w.keys {
-				if k.Acct == p.Sender && prev.Bals[i].Cmp(cur.Bals[i]) != 0 {
+				// (a bridge call timing out in the same step may refund the same account)
+				if len(prev.Calls) == len(cur.Calls) && k.Acct == p.Sender && prev.Bals[i].Cmp(cur.Bals[i]) != 0 {
 					m.fail("C05:refund-at-execution", "execution of batch %d changed the balance %v of a sender", op.Nonce, k)
 				}
 			}
@@ -332,7 +333,7 @@ func (m *Monitor) c06(op Op, ok bool, prev, cur Snap) {
 		if op.Kind == "BatchExecuted" && op.Token == b.Token && op.Nonce >= b.Nonce {
 			continue // executed, or superseded by the execution of a newer batch of the token
 		}
-		if !(b.Timeout < op.H) {
+		if !(b.Timeout <= op.H) { // "has reached its timeout height"; the keeper is stricter (<), which is fine
 			m.fail("C06:batch-timeout-early", "batch %d (timeout %d) was cancelled on an event at height %d", b.Nonce, b.Timeout, op.H)
 		}
 	}
